@@ -12,18 +12,59 @@ import Plotink.Gen.checkLimits
 import Plotink.Gen.checkLimitsTol
 import Plotink.Gen.point_in_bounds
 import Plotink.Gen.constrainLimits
-/-! `gen <function> <dps> <args…>`: run a *generated* definition with the concrete rounding instance. -/
+import Plotink.Gen.clip_code
+import Plotink.Gen.clip_segment
+import Plotink.Gen.points_in_tolerance
+import Plotink.Gen.supersample
+/-! `gen <function> <dps> <args…>`: run a *generated* definition with the concrete rounding instance
+(`Rounding.ieee`), or with `Rounding.exact` when `<dps>` is written `x<dps>`.
+Arguments: `parseVal` syntax, plus nested lists `[[f1/2,0],[1,2]]` (no blanks).
+Functions with a `while` loop take their fuel as first argument and answer `FUELOUT` on exhaustion. -/
 namespace Plotink
 namespace Drv
 open Py
 
+mutual
+/-- one value of the nested-list argument syntax, and the unread rest -/
+partial def parseNested (cs : List Char) : Py.Val × List Char :=
+  match cs with
+  | '[' :: rest => parseNestedList rest []
+  | _ =>
+    let stop := fun (c : Char) => c == ',' || c == ']'
+    (parseVal (String.ofList (cs.takeWhile (fun c => !stop c))), cs.dropWhile (fun c => !stop c))
+partial def parseNestedList (cs : List Char) (acc : List Py.Val) : Py.Val × List Char :=
+  match cs with
+  | [] => (.err, [])
+  | ']' :: rest => (.tup acc.reverse, rest)
+  | ',' :: rest => parseNestedList rest acc
+  | _ => let (v, rest) := parseNested cs; parseNestedList rest (v :: acc)
+end
+
+def parseArg (s : String) : Py.Val :=
+  if s.startsWith "[" then
+    match parseNested s.toList with
+    | (v, []) => v
+    | _ => .err
+  else parseVal s
+
+def showPyOut : Py.Out → String
+  | .val v => showVal v
+  | .fuelOut => "FUELOUT"
+
 def genHandle (toks : List String) : String :=
-  let R := Rounding.ieee
   match toks with
   | f :: dps :: args =>
-    let p := Py.dpsToPrec dps.toNat!
-    let a := args.map parseVal
+    let exact := dps.startsWith "x"
+    let R := if exact then Rounding.exact else Rounding.ieee
+    let p := Py.dpsToPrec (if exact then (dps.drop 1).toString.toNat! else dps.toNat!)
+    let a := args.map parseArg
+    match f, a with
+    | "clip_segment", [.int fuel, seg, bounds] => showPyOut (Gen.clip_segment R p fuel.toNat seg bounds)
+    | "supersample", [.int fuel, vs, tol] => showPyOut (Gen.supersample R p fuel.toNat vs tol)
+    | _, _ =>
     let r : Py.Val := match f, a with
+      | "clip_code", [x, y, x0, x1, y0, y1] => Gen.clip_code R p x y x0 x1 y0 y1
+      | "points_in_tolerance", [pts, tol] => Gen.points_in_tolerance R p pts tol
       | "move_dist_lt", [a, b, c, d] => Gen.move_dist_lt R p a b c d
       | "move_dist_t3", [a, b, c, d, e] => Gen.move_dist_t3 R p a b c d e
       | "rate_t3", [a, b, c, d] => Gen.rate_t3 R p a b c d
